@@ -57,6 +57,18 @@ CHECKS['C19'] = {
     'technique': 'provenance (element abstraction) + effect analysis (only swap mutates) + symbolic length/index matching + precondition vs field invariant',
 }
 
+CHECKS['C17'] = {
+    'category': 'other',
+    'text': 'Guard/dataflow decision of the structural clauses: Box-Cox transforms reject exactly through a positivity test of the very value '
+            'they take ln/powf of (domain x + shift > 0) and return ln(v) / (v^lambda - 1)/lambda on the lambda == 0 split; logit\'s ln is '
+            'dominated by the [0,1] range test; softmax exponentiates (element - max) only and normalises with one common exponential; '
+            'logistic\'s closed form has range [0,1] and is non-decreasing (interval + monotonicity abstract evaluation). '
+            'binom_coeff exactness and the reflection identity to rounding are not decided.',
+    'design_ref': 'DESIGN.md 4.17, 3 (E-GRD guard-use, E-WIRE, E-ABS)',
+    'note': 'Interval reasoning is over the reals (underflow of exp to 0 is outside the clause). Trusted: std summaries.',
+    'technique': 'dominating-guard analysis + element abstraction + interval/monotonicity abstract interpretation of closed forms',
+}
+
 NOT_APPLICABLE = {
     'C09': 'accuracy of the Lanczos/asymptotic/Abramowitz-Stegun approximations over a continuum of arguments is a numerical '
            'quantity; no structural clause is a necessary condition without freezing coefficient tables (a brittle proxy); see DESIGN.md 4.9',
